@@ -4,7 +4,8 @@
    effect on the arguments are the same" is simply: the two recorded calls of a twin are equal
    under the abstraction (axiom Functional: equal abstract arguments and heap => equal abstract
    result, equal outcome, equal heap effect).  A case is a twin: the same library call executed
-   with every integral number spelt as int and as float (recursively inside containers).      *)
+   with every integral number spelt as int, as float, and mixed (each occurrence independently; recursively
+   inside containers).      *)
 EXTENDS Integers, Sequences, TLC, Json, IOUtils, TreeEq
 Cases == JsonDeserialize(IOEnv.CASES)
 VARIABLES tid, verdict
@@ -15,6 +16,10 @@ Law ==
     ELSE IF C.statusI # C.statusF THEN <<"REJECT", "outcome-differs", <<C.fn, C.statusI, C.statusF>>>>
     ELSE IF ~TreeEq(C.resI, C.resF) THEN <<"REJECT", "result-differs", <<C.fn, C.argsBeforeI, "int", C.resI, "float", C.resF>>>>
     ELSE IF ~TreeSeqEq(C.argsAfterI, C.argsAfterF) THEN <<"REJECT", "effect-on-arguments-differs", <<C.fn, C.argsAfterI, C.argsAfterF>>>>
+    \* third spelling: every integral number independently int or float (mixed within one call)
+    ELSE IF C.statusM # C.statusF THEN <<"REJECT", "outcome-differs-for-mixed-spellings", <<C.fn, C.statusM, C.statusF>>>>
+    ELSE IF ~TreeEq(C.resM, C.resF) THEN <<"REJECT", "result-differs-for-mixed-spellings", <<C.fn, C.argsBeforeI, "mixed", C.resM, "float", C.resF>>>>
+    ELSE IF ~TreeSeqEq(C.argsAfterM, C.argsAfterF) THEN <<"REJECT", "effect-on-arguments-differs-for-mixed-spellings", <<C.fn, C.argsAfterM, C.argsAfterF>>>>
     ELSE <<"ACCEPT">>
 Init == tid \in 1..Len(Cases) /\ verdict = "open"
 Next == /\ verdict = "open" /\ verdict' = Law[1] /\ PrintT(<<"V", tid>> \o Law) /\ UNCHANGED tid
